@@ -12,7 +12,7 @@ const PropertyInfo kInfo = {
     "tape -> (message length from boundary table {0,1,55..57,63..65,119,120,127..129,1023..1025,65536} or uniform <= 8192; "
     "message bytes expanded from a seed; one record per incremental update call: empty / 1 byte / up to the next 64-byte edge / 0..129 bytes; "
     "key length from {0,1,31,32,63,64,65,128,200} or uniform <= 300; candidate tag: correct, single-bit flip at any of 256 positions, "
-    "truncated 0..31, extended 33..64, empty, random). Oracle: OpenSSL EVP SHA-256 / HMAC; verify() true iff tag is the 32-byte OpenSSL MAC. "
+    "truncated 0..31, extended 33..64, empty, random, two bytes changed so that the differences cancel: same bit / top bit in two bytes, two bytes swapped, +d and -d). Oracle: OpenSSL EVP SHA-256 / HMAC; verify() true iff tag is the 32-byte OpenSSL MAC. "
     "Non-trivial: length mod 64 in {55..63,0}, or >= 2 update calls, or key longer than 64 bytes. Distinct = hash of the decoded case."};
 
 namespace {
@@ -70,9 +70,14 @@ void run_case(Ctx& c) {
 
     // --- verify accepts exactly the 32-byte correct tag
     std::vector<std::uint8_t> tag(rmac.begin(), rmac.end());
-    unsigned kind = t.h(6) % 6;
+    unsigned kind = t.h(6) % 10;
     unsigned arg = t.h(7);
     switch (kind) {
+        // tags whose byte-wise differences cancel in an aggregating comparison (sum, xor, signed sum of the differences)
+        case 6: { unsigned i = (arg / 8) % 32, j = (i + 1 + (arg % 31)) % 32; std::uint8_t bit = static_cast<std::uint8_t>(1u << (arg % 8)); tag[i] ^= bit; tag[j] ^= bit; break; }
+        case 7: { unsigned i = arg % 32, j = (i + 1 + (arg / 32) % 31) % 32; tag[i] ^= 0x80; tag[j] ^= 0x80; break; }
+        case 8: { unsigned i = arg % 32, j = (i + 1 + (arg / 32) % 31) % 32; if (tag[i] == tag[j]) tag[i] ^= 1; else std::swap(tag[i], tag[j]); break; }
+        case 9: { std::uint8_t d = static_cast<std::uint8_t>(1 + arg % 255); unsigned i = arg % 32, j = (i + 7) % 32; tag[i] = static_cast<std::uint8_t>(tag[i] + d); tag[j] = static_cast<std::uint8_t>(tag[j] - d); break; }
         case 0: break;
         case 1: tag[(arg / 8) % 32] ^= static_cast<std::uint8_t>(1u << (arg % 8)); break;
         case 2: tag.resize(arg % 32); break;
